@@ -11,14 +11,17 @@
          k-th derivative of A/w whenever its input is the list of derivatives of (A, w);  [B] same for A4.4, k, l <= 3;
      [G] A2.3 row 0 = A2.2 (so, with C03, the Cox-de Boor functions);
      [B] A2.3 rows = the algebraic derivative recursion Eq. 2.9 (degree <= 5), rows sum to zero (degree <= 6), symbolic window;
+     [B] A3.4 = A3.2 for degree <= 3 and A3.8 = A3.6 (triangle k+l <= order) for bi-degree <= (2,2), every order 0..p+2, symbolic
+         windows and control values;
+     [G] hodograph control points: sum dN1_i P_i = sum N_{i+1,p-1} Q_i (dN1 = algebraic derivative Eq. 2.7), A3.3 row 1 = Q;
      [G] normal orthogonal to both tangents, unit vector has norm 1.
    NOT proved: that Eq. 2.9 is the analytic derivative (is_derive), the general-degree version of the [B] results, the
-   agreement of A3.4/A3.8 (derivative control points) with A3.2/A3.6, the hodograph constructors.  Those parts of the
+   agreement of A3.4 with A3.2 beyond degree 3 and of A3.8 with A3.6 beyond bi-degree (2,2); the hodograph constructors are covered only for the control-point formula relative to Eq. 2.7.  Those parts of the
    statement are tied only by the correspondence against the exact piecewise-polynomial oracle (harness/props/C02.py).
    The full statement is C02_derivatives_are_exact_full below (a Definition, not a theorem). *)
 From Coq Require Import List QArith Reals Lra Lia Arith Bool.
 From NV Require Import Scalar.Ops Model.Common Model.Basis Model.Knots Model.Eval Model.Degree Model.Derivs.
-From NV Require Import Proofs.BasisR Proofs.DerivsR Proofs.DerivsRatSurf Proofs.DersRow0 Proofs.DerivsOrder0 Proofs.DersWindow Proofs.DersWindow56.
+From NV Require Import Proofs.BasisR Proofs.DerivsR Proofs.DerivsRatSurf Proofs.DersRow0 Proofs.DerivsOrder0 Proofs.DersWindow Proofs.DersWindow56 Proofs.DerivsAgree Proofs.DerivsAgreeSurf Proofs.Boehm Proofs.Hodograph.
 From NV Require Import Run.DerivsH.
 Import ListNotations.
 
@@ -105,6 +108,48 @@ Theorem C02_ders_sum_zero_degree6_partial : forall k0 k1 k2 k3 k4 k5 k6 k7 k8 k9
   forall k, (1 <= k <= 6)%nat -> sumT Rops (nth k (basis_function_ders Rops 6 W 6 u 6) []) = 0)%R.
 Proof. exact ders_sum_zero_6. Qed.
 Print Assumptions C02_ders_sum_zero_degree6_partial.
+
+(* ------------------------------------------------------------------------------------------------ the two evaluator families *)
+(* [B] degree 3 shown (1, 2 in Proofs/DerivsAgree.v): A3.4 (derivative control points A3.3 + lower-degree basis functions) and A3.2
+       (basis-function derivatives) return the same vectors for every order 0..p+2, symbolic window and control values *)
+Theorem C02_evaluator_families_agree_degree3_partial : forall k0 k1 k2 k3 k4 k5 k6 k7 u a0 a1 a2 a3 : R,
+  (k0 <= k1 -> k1 <= k2 -> k2 <= k3 -> k3 <= u -> u < k4 -> k4 <= k5 -> k5 <= k6 -> k6 <= k7 ->
+  let W := [k0; k1; k2; k3; k4; k5; k6; k7] in let P := [[a0]; [a1]; [a2]; [a3]] in
+  forall order, (order <= 5)%nat -> curve_derivs2 Rops 1 3 W P u order = curve_derivs Rops 1 3 W P u order)%R.
+Proof. exact evaluators_agree_3. Qed.
+Print Assumptions C02_evaluator_families_agree_degree3_partial.
+
+(* [B] bi-degree (2,2) shown ((1,1), (2,1), (1,2) in Proofs/DerivsAgreeSurf.v): A3.8 with the repaired A3.7 and A3.6 return the same
+       SKL[k][l] on the contract triangle k + l <= order for every order 0..4 - including order > degree, the case in which the pinned
+       tree raised TypeError - symbolic knot windows in both directions and symbolic control values *)
+Theorem C02_surface_evaluator_families_agree_degree22_partial :
+  forall s0 s1 s2 s3 s4 s5 u t0 t1 t2 t3 t4 t5 v a00 a01 a02 a10 a11 a12 a20 a21 a22 : R,
+  (s0 <= s1 -> s1 <= s2 -> s2 <= u -> u < s3 -> s3 <= s4 -> s4 <= s5 ->
+   t0 <= t1 -> t1 <= t2 -> t2 <= v -> v < t3 -> t3 <= t4 -> t4 <= t5 ->
+  let Wu := [s0; s1; s2; s3; s4; s5] in let Wv := [t0; t1; t2; t3; t4; t5] in
+  let P := [[a00]; [a01]; [a02]; [a10]; [a11]; [a12]; [a20]; [a21]; [a22]] in
+  forall order k l, (order <= 4)%nat -> (k + l <= order)%nat ->
+  get3 (surface_derivs2 Rops 1 2 2 Wu Wv 3 3 P u v order) k l = get3 (surface_derivs Rops 1 2 2 Wu Wv 3 3 P u v order) k l)%R.
+Proof. exact surface_evaluators_agree_22. Qed.
+Print Assumptions C02_surface_evaluator_families_agree_degree22_partial.
+
+(* ------------------------------------------------------------------------------------------------ hodograph control points *)
+(* [G] every degree p = S p' >= 1, sorted knot sequence with any multiplicities, every n and every u in the domain [U_p, U_n):
+       with the algebraic derivative dN1 of Eq. 2.7,  sum_{i<n} dN1_i(u) P_i = sum_{i<n-1} N_{i+1,p-1}(u) Q_i,
+       Q_i = p (P_{i+1} - P_i) / (U_{i+p+1} - U_{i+1})  - the control points that A3.3 / derivative_curve compute (next theorem).
+       (That dN1 is the analytic derivative of N_{i,p} is not proved.) *)
+Theorem C02_hodograph_control_points : forall (U : nat -> R), (forall i, (U i <= U (S i))%R) ->
+  forall p' (P : nat -> R) u n, (U (S p') <= u < U (S n))%R ->
+  Rsum (fun i => (dN1 U p' u i * P i)%R) (S n) = Rsum (fun i => (N U p' (S i) u * Qc U p' P i)%R) n.
+Proof. exact hodograph_control_points. Qed.
+Print Assumptions C02_hodograph_control_points.
+
+Theorem C02_deriv_cpts_row1_is_Q : forall p (kv : list R) (cpts : list (list R)) n i c,
+  (S i < n)%nat -> length cpts = n -> (c < length (nth (S i) cpts []))%nat -> (c < length (nth i cpts []))%nat ->
+  nth c (nth i (nth 1 (curve_deriv_cpts Rops p kv cpts 0 (n - 1) 1) []) []) 0%R =
+  (INR p * (nth c (nth (S i) cpts []) 0 - nth c (nth i cpts []) 0) / (kn Rops kv (i + p + 1) - kn Rops kv (i + 1)))%R.
+Proof. exact deriv_row_is_Q. Qed.
+Print Assumptions C02_deriv_cpts_row1_is_Q.
 
 (* ------------------------------------------------------------------------------------------------ tangent / normal *)
 (* [G] the normal returned by the model is the cross product of the two tangents of the same call and is orthogonal to both *)
